@@ -204,6 +204,36 @@ def _known_native():
 KNOWN_NATIVE = _known_native()
 
 
+def _native_finding_checks():
+    """a recorded finding that only the native search can see (its signature is skipped there) stays visible: one
+    obligation per entry runs the entry's demonstration script on the tree under check; it FAILS while the defect is
+    present (matched to the known_findings.json entry -> KNOWN-FINDING line) and holds once the defect is gone"""
+    try:
+        with open(os.path.join(VERIF, "known_findings.json")) as f:
+            d = json.load(f)
+    except (OSError, ValueError):
+        return
+    for fd in d.get("findings", []):
+        if fd.get("property") != "C14" or not fd.get("native") or not fd.get("demo"):
+            continue
+
+        def check(repo, fd=fd):
+            import subprocess
+            env = dict(os.environ, PYTHONPATH=repo.root, PYTHONDONTWRITEBYTECODE="1")
+            try:
+                p = subprocess.run(["/venv/bin/python", os.path.join(VERIF, fd["demo"])], capture_output=True, text=True,
+                                   timeout=120, env=env, cwd=VERIF)
+            except subprocess.TimeoutExpired:
+                return False, "demonstration timed out"
+            tail = (p.stdout or p.stderr).strip().splitlines()[-1:] or [""]
+            return p.returncode == 0, "%s exit %d: %s" % (fd["demo"], p.returncode, tail[0][:200])
+        REG.static_checks.append(("C14", "recorded native finding %s is absent (its signature %s is skipped by the native search)"
+                                  % (fd["id"], fd["native"]), check))
+
+
+_native_finding_checks()
+
+
 def _split_known(info, els):
     e = info["e"]
     new = [el for el in els if e.site_key(el) not in KNOWN]
@@ -598,7 +628,9 @@ def native_search(root, rng, n):
             if out in ("INTERNAL", "TIMEOUT") and not _is_known_native(out, detail):
                 fails.append({"inputs": {"script": txt, "seed": name}, "outcome": out, "exception": detail,
                               "failed_clauses": ["building terminates with success or a script error"]})
-        for i in range(n):
+        for i in range(min(n, 1500)):
+            if len(fails) >= 3:
+                break                      # enough witnesses (the report keeps three; a replay needs one)
             name, txt = rng.choice(seeds)
             script = mutate_script(rng, txt, verbs)
             ev += 1
